@@ -45,8 +45,13 @@ namespace
         std::atomic<long> per_member[12];
         std::atomic<int>  first_bad_member{-1};
         bool              judge_owner = true; // false when a std::mutex guards the allocator (owner unknown)
+        // refusals: the wrapped allocator throws now and then from its throwing members; afterwards the mutex must be free again
+        std::atomic<long> refusals{0}, held_after_exception{0}, try_gave_up{0};
+        std::atomic<void*> held_mutex{nullptr};
         void reset()
         {
+            refusals = held_after_exception = try_gave_up = 0;
+            held_mutex = nullptr;
             owner = 0;
             acquisitions = contended = 0;
             inflight = 0;
@@ -79,7 +84,18 @@ namespace
                 m.lock();
             }
             M().owner.store(my_tid());
+            M().held_mutex.store(this);
             M().acquisitions.fetch_add(1, std::memory_order_relaxed);
+        }
+        // (Lockable, like std::mutex; the library is expected to need lock()/unlock() only)
+        bool try_lock()
+        {
+            if (!m.try_lock())
+                return false;
+            M().owner.store(my_tid());
+            M().held_mutex.store(this);
+            M().acquisitions.fetch_add(1, std::memory_order_relaxed);
+            return true;
         }
         void unlock()
         {
@@ -87,6 +103,21 @@ namespace
             m.unlock();
         }
     };
+    struct refusal : std::bad_alloc
+    {
+    };
+    // called by a thread that has just caught an exception out of the wrapper: it must not hold the mutex any more
+    // (if it does, the harness releases it so that the run can go on and be reported)
+    inline void after_exception()
+    {
+        auto& m = M();
+        m.refusals.fetch_add(1, std::memory_order_relaxed);
+        if (m.judge_owner && m.owner.load() == my_tid())
+        {
+            m.held_after_exception.fetch_add(1);
+            static_cast<mon_mutex*>(m.held_mutex.load())->unlock();
+        }
+    }
 
     thread_local rng* t_rng = nullptr;
 
@@ -135,11 +166,15 @@ namespace
         void* allocate_node(std::size_t size, std::size_t)
         {
             enter(0);
+            if (M().judge_owner && t_rng && t_rng->chance(4))
+                throw refusal();
             return std::malloc(size);
         }
         void* allocate_array(std::size_t c, std::size_t size, std::size_t)
         {
             enter(1);
+            if (M().judge_owner && t_rng && t_rng->chance(4))
+                throw refusal();
             return std::malloc(c * size);
         }
         void deallocate_node(void* p, std::size_t, std::size_t) noexcept
@@ -205,16 +240,37 @@ namespace
             switch (r.below(use_proxy ? 13 : 11))
             {
             case 0:
-                mine.push_back({tr::allocate_node(s, 24, 8), 0});
+                try
+                {
+                    mine.push_back({tr::allocate_node(s, 24, 8), 0});
+                }
+                catch (std::bad_alloc&)
+                {
+                    after_exception();
+                }
                 break;
             case 1:
-                mine.push_back({tr::allocate_array(s, 3, 8, 8), 1});
+                try
+                {
+                    mine.push_back({tr::allocate_array(s, 3, 8, 8), 1});
+                }
+                catch (std::bad_alloc&)
+                {
+                    after_exception();
+                }
                 break;
             case 2:
-                mine.push_back({ctr::try_allocate_node(s, 24, 8), 2});
+                // the wrapped allocator's try_ members always succeed: a null result is the wrapper giving up (e.g. not waiting for the mutex)
+                if (void* p = ctr::try_allocate_node(s, 24, 8))
+                    mine.push_back({p, 2});
+                else
+                    M().try_gave_up.fetch_add(1);
                 break;
             case 3:
-                mine.push_back({ctr::try_allocate_array(s, 3, 8, 8), 3});
+                if (void* p = ctr::try_allocate_array(s, 3, 8, 8))
+                    mine.push_back({p, 3});
+                else
+                    M().try_gave_up.fetch_add(1);
                 break;
             case 4:
             case 5:
@@ -227,10 +283,11 @@ namespace
                         tr::deallocate_node(s, e.first, 24, 8);
                     else if (e.second == 1)
                         tr::deallocate_array(s, e.first, 3, 8, 8);
-                    else if (e.second == 2)
-                        ctr::try_deallocate_node(s, e.first, 24, 8);
-                    else
-                        ctr::try_deallocate_array(s, e.first, 3, 8, 8);
+                    else if (!(e.second == 2 ? ctr::try_deallocate_node(s, e.first, 24, 8) : ctr::try_deallocate_array(s, e.first, 3, 8, 8)))
+                    {
+                        M().try_gave_up.fetch_add(1);
+                        std::free(e.first);
+                    }
                 }
                 break;
             case 7:
@@ -249,7 +306,16 @@ namespace
             {
                 // the lock() proxy: the wrapped allocator is used directly while the proxy is alive
                 auto  l = s.lock();
-                void* p = l->allocate_node(16, 8);
+                void* p = nullptr;
+                try
+                {
+                    p = l->allocate_node(16, 8);
+                }
+                catch (std::bad_alloc&)
+                {
+                    M().refusals.fetch_add(1, std::memory_order_relaxed); // the proxy still holds the lock, rightly
+                    break;
+                }
                 if (r.chance(50))
                 {
                     // the proxy handed on (stored in another object, returned from a function): the lock goes with it
@@ -307,6 +373,17 @@ namespace
         if (m.overlaps.load())
             viol("C13", "C13/" + kind + "/overlapping-calls", "%ld times two threads were inside the wrapped allocator at once (first seen in %s)",
                  m.overlaps.load(), member_name(m.first_bad_member.load() < 0 ? 11 : m.first_bad_member.load()));
+        count("wrapped_allocator_refusals", m.refusals.load());
+        // (a wrapper that cannot be used after its allocator refused a request also breaks C03's "able to serve later valid requests")
+        also_scope as("C03", "C13");
+        if (m.held_after_exception.load())
+            viol("C13", "C13/" + kind + "/lock-held-after-exception",
+                 "%ld of %ld times an exception thrown by the wrapped allocator left the calling thread holding the mutex", m.held_after_exception.load(),
+                 m.refusals.load());
+        if (m.try_gave_up.load())
+            viol("C13", "C13/" + kind + "/composable-member-gave-up",
+                 "%ld times a try_ member of the wrapper reported failure although the wrapped allocator never refuses: it did not wait for the mutex",
+                 m.try_gave_up.load());
         (void)need_contention;
     }
 
